@@ -94,7 +94,10 @@ func GenC18ClientBad(r *RNG) *CliPlan {
 		p.Reqs = append(p.Reqs, q)
 		p.Lanes = append(p.Lanes, l)
 	}
-	kind := Pick(r, "enable-push-2", "max-frame-small", "max-frame-big", "init-window-big", "push-promise", "settings-bad-len", "settings-ack-payload")
+	kind := Pick(r, "enable-push-2", "max-frame-small", "max-frame-big", "init-window-big", "push-promise", "push-promise", "push-promise-finished", "push-promise-idle", "settings-bad-len", "settings-ack-payload")
+	if kind == "push-promise-finished" && n < 3 {
+		kind = "push-promise-idle"
+	}
 	bad := Lane{Name: "bad-" + kind, After: -1}
 	switch kind {
 	case "enable-push-2":
@@ -107,14 +110,29 @@ func GenC18ClientBad(r *RNG) *CliPlan {
 		bad.Ops = []Op{{Kind: "settings", Settings: [][2]uint32{{4, 1 << 31}}, Pad: -1, TableSize: -1}}
 	case "push-promise":
 		bad.Ops = []Op{{Kind: "raw", RawType: FPushPromise, RawFlags: 4, RawHex: "00000002" + "8287", LaneRef: 1, Pad: -1, TableSize: -1}}
+	case "push-promise-idle":
+		// on a stream the client never opened
+		bad.Ops = []Op{{Kind: "raw", RawType: FPushPromise, RawFlags: 4, RawHex: "00000002" + "8287", StreamRef: 101, Pad: -1, TableSize: -1}}
+	case "push-promise-finished":
+		// on the stream of a request that has been answered in full: nobody is waiting on it any more
+		bad.Ops = []Op{{Kind: "raw", RawType: FPushPromise, RawFlags: 4, RawHex: "00000002" + "8287", LaneRef: 1, Pad: -1, TableSize: -1}}
 	case "settings-bad-len":
 		bad.Ops = []Op{rawOp(FSettings, 0, 5, -1)}
 	case "settings-ack-payload":
 		bad.Ops = []Op{rawOp(FSettings, 1, 6, -1)}
 	}
-	// the offence goes out after request 0 has arrived, before it is answered
-	bad.Ops = append([]Op{{Kind: "wait-req", Len: 0, Pad: -1, TableSize: -1}}, bad.Ops...)
-	p.Lanes[0].After = len(p.Lanes) // response 0 only after the offence lane is done
+	if kind == "push-promise-finished" {
+		// response 0 in full, then the offence, then response 1; the late caller waits for request 1 to come back
+		bad.After = 0
+		bad.Ops = append([]Op{{Kind: "wait-req", Len: 1, Pad: -1, TableSize: -1}}, bad.Ops...)
+		p.Lanes[1].After = len(p.Lanes)
+		p.Reqs[n-1].StartAfter = 1
+		p.Reqs[1].StartAfter = -1
+	} else {
+		// the offence goes out after request 0 has arrived, before it is answered
+		bad.Ops = append([]Op{{Kind: "wait-req", Len: 0, Pad: -1, TableSize: -1}}, bad.Ops...)
+		p.Lanes[0].After = len(p.Lanes) // response 0 only after the offence lane is done
+	}
 	p.Lanes = append(p.Lanes, bad)
 	p.Trail = "c18-bad/" + kind
 	return p
